@@ -44,4 +44,143 @@ theorem objectMeaning (env : Env) (ST : Toks) (b : CxxType) (dr : Option Declara
   simp only [h1, h2, hdp]
   simp [skipAttrs]
 
+/-! ### the C rendering prints the declarator with `&` turned into `*` -/
+
+theorem ptrsToks_true (ps : List Ptr) : ptrsToks true ps = ptrsToks false (ps.map starPtr) := by
+  induction ps with
+  | nil => rfl
+  | cons p ps ih =>
+    obtain ⟨k, c, v⟩ := p
+    cases k <;> simp [ptrsToks, Ptr.toks, starPtr, ih]
+
+theorem toks_true (d : Declarator) : d.toks true = (toStarD d).toks false := by
+  induction d with
+  | leaf ps n => simp [Declarator.toks, toStarD, ptrsToks_true]
+  | wrap ps i ih => simp [Declarator.toks, toStarD, ptrsToks_true, ih]
+
+theorem WFD_toStar (env : Env) (d : Declarator) (h : WFD env d) : WFD env (toStarD d) := by
+  induction d with
+  | leaf ps n =>
+    cases n with
+    | some nm => simpa [toStarD, WFD] using h
+    | none =>
+      simp only [toStarD, WFD] at h ⊢
+      intro hh; apply h; cases ps <;> simp_all
+  | wrap ps i ih => simpa [toStarD, WFD] using ih h
+
+theorem refsPlain_star (ps : List Ptr) : RefsPlain (ps.map starPtr) := by
+  intro p hp hk
+  simp only [List.mem_map] at hp
+  obtain ⟨q, _, rfl⟩ := hp
+  simp [starPtr] at hk
+
+theorem refsPlainD_toStar (d : Declarator) : refsPlainD (toStarD d) := by
+  induction d with
+  | leaf ps n => exact refsPlain_star ps
+  | wrap ps i ih => exact ⟨refsPlain_star ps, ih⟩
+
+theorem name_toStar (d : Declarator) : declaratorName (toStarD d) = declaratorName d := by
+  induction d with
+  | leaf ps n => rfl
+  | wrap ps i ih => simpa [toStarD, declaratorName] using ih
+
+theorem ptrOp_star (ps : List Ptr) (h : RefsPlain ps) : (ps.map starPtr).map ptrOp = (ps.map ptrOp).map toCOp := by
+  induction ps with
+  | nil => rfl
+  | cons p ps ih =>
+    have hp := h p (by simp)
+    have := ih (fun q hq => h q (by simp [hq]))
+    obtain ⟨k, c, v⟩ := p
+    cases k
+    · simp [starPtr, ptrOp, toCOp] at this ⊢; exact this
+    · obtain ⟨rfl, rfl⟩ := hp rfl
+      simp [starPtr, ptrOp, toCOp] at this ⊢; exact this
+
+theorem declaratorOps_toStar (d : Declarator) (h : refsPlainD d) :
+    declaratorOps (toStarD d) = (declaratorOps d).map toCOp := by
+  induction d with
+  | leaf ps n => simpa [toStarD, declaratorOps] using ptrOp_star ps h
+  | wrap ps i ih =>
+    simp only [toStarD, declaratorOps, List.map_append]
+    rw [ptrOp_star ps h.1, ih h.2]
+
+def arrOps (arr : List Expr) : List Op := arr.map (fun e => Op.arr (printExpr e))
+
+theorem arrOps_toC (l : List Op) (h : ∀ o ∈ l, ∃ n, o = Op.arr n) : l.map toCOp = l := by
+  induction l with
+  | nil => rfl
+  | cons o os ih =>
+    obtain ⟨n, hn⟩ := h o (by simp)
+    subst hn
+    simp [toCOp, ih (fun x hx => h x (by simp [hx]))]
+
+theorem denOps_toStar (dr : Option Declarator) (arr : List Expr) (h : ∀ d, dr = some d → refsPlainD d) :
+    denOps (dr.map toStarD) (arrOps arr) = (denOps dr (arrOps arr)).map toCOp := by
+  have ha : (arrOps arr).reverse.map toCOp = (arrOps arr).reverse := by
+    apply arrOps_toC
+    intro o ho
+    simp only [arrOps, List.mem_reverse, List.mem_map] at ho
+    obtain ⟨e, _, rfl⟩ := ho
+    exact ⟨_, rfl⟩
+  cases dr with
+  | none => simp [denOps, ha]
+  | some d =>
+    have hd := h d rfl
+    cases d with
+    | leaf ps n => simp [denOps, opsOf, toStarD, List.map_append, ptrOp_star ps hd, ha]
+    | wrap ps i =>
+      simp only [Option.map, denOps, opsOf, toStarD, List.map_append]
+      rw [ptrOp_star ps hd.1, declaratorOps_toStar i hd.2, ha]
+
+/-- a derivation of pointer and array steps adds no reference -/
+theorem hasRef_applyOps (ops : List Op) (h : ∀ o ∈ ops, (∃ c v, o = Op.ptr c v) ∨ ∃ n, o = Op.arr n) :
+    ∀ b, (applyOps b ops).hasRef = b.hasRef := by
+  induction ops with
+  | nil => intro b; rfl
+  | cons o os ih =>
+    intro b
+    simp only [applyOps, List.foldl_cons] at ih ⊢
+    rw [ih (fun x hx => h x (by simp [hx]))]
+    rcases h o (by simp) with ⟨c, v, rfl⟩ | ⟨n, rfl⟩ <;> simp [applyOp, CxxType.hasRef]
+
+theorem denOps_star_kinds (dr : Option Declarator) (arr : List Expr) :
+    ∀ o ∈ (denOps dr (arrOps arr)).map toCOp, (∃ c v, o = Op.ptr c v) ∨ ∃ n, o = Op.arr n := by
+  have hp : ∀ (ps : List Ptr), ∀ o ∈ (ps.map ptrOp).map toCOp, (∃ c v, o = Op.ptr c v) ∨ ∃ n, o = Op.arr n := by
+    intro ps o ho
+    simp only [List.mem_map] at ho
+    obtain ⟨o', ⟨p, _, rfl⟩, rfl⟩ := ho
+    obtain ⟨k, c, v⟩ := p
+    cases k <;> simp [ptrOp, toCOp]
+  have ha : ∀ o ∈ ((arrOps arr).reverse).map toCOp, (∃ c v, o = Op.ptr c v) ∨ ∃ n, o = Op.arr n := by
+    intro o ho
+    simp only [arrOps, List.mem_map, List.mem_reverse] at ho
+    obtain ⟨o', ⟨e, _, rfl⟩, rfl⟩ := ho
+    right; exact ⟨printExpr e, by simp [toCOp]⟩
+  have hdo : ∀ (d : Declarator), ∀ o ∈ (declaratorOps d).map toCOp, (∃ c v, o = Op.ptr c v) ∨ ∃ n, o = Op.arr n := by
+    intro d
+    induction d with
+    | leaf ps n => simpa [declaratorOps] using hp ps
+    | wrap ps i ih =>
+      intro o ho
+      simp only [declaratorOps, List.map_append, List.mem_append] at ho
+      rcases ho with ho | ho
+      · exact hp ps o ho
+      · exact ih o ho
+  intro o ho
+  cases dr with
+  | none => simpa [denOps] using ha o (by simpa [denOps] using ho)
+  | some d =>
+    cases d with
+    | leaf ps n =>
+      simp only [denOps, opsOf, List.map_append, List.mem_append] at ho
+      rcases ho with ho | ho
+      · exact hp ps o ho
+      · exact ha o ho
+    | wrap ps i =>
+      simp only [denOps, opsOf, List.map_append, List.mem_append] at ho
+      rcases ho with (ho | ho) | ho
+      · exact hp ps o ho
+      · exact ha o ho
+      · exact hdo i o ho
+
 end Shroud.Cxx
